@@ -45,8 +45,11 @@ def step_for(scheme, host, tok, shape):
 def build(case):
     kind, ctx, shape = case["kind"], case["context"], case["shape"]
     maxc = case.get("max_connections") or (1 if ctx in ("queued-other", "pool-timeout") else 2)
-    pool_cfg, cfg, scheme = topo(kind, pool_extra={"max_connections": maxc},
-                                 plans={"v0": {"framing": "chunked", "chunks": [4], "body_len": 12}},
+    extra = {"max_connections": maxc}
+    if case.get("retries"):
+        extra["retries"] = case["retries"]
+    pool_cfg, cfg, scheme = topo(kind, pool_extra=extra, h2=case.get("h2"),
+                                 plans={"v0": {"framing": "chunked", "chunks": [4], "body_len": 12, "h2_frames": [5]}},
                                  hosts=("a.test", "b.test", "p0.test", "p1.test", "p2.test", "p3.test"))
     faults = [dict(f) for f in case.get("faults", [])]
     world = World(peer_factory=cfg.peer_factory, faults=faults)
